@@ -436,3 +436,25 @@ func init() {
 		"Replay of a cloned commit re-applied the transaction's other blocks: a replica regressed under interleaved multi-block writers",
 		func() (bool, string) { return schedRepro("C06") })
 }
+
+func init() {
+	registerKF("f26-key-ops-act-on-stale-offset", "C12",
+		"DeleteKey/QueryKey/UpsertKey resolve the key to an offset when they are issued and queue offset-based work; if the row is deleted and the offset re-used before the transaction commits (by a concurrent transaction), the queued work hits the wrong row",
+		func() (bool, string) {
+			c, _ := kfCollection(ColSpec{Name: "pk", Kind: KKey})
+			defer c.Close()
+			c.InsertKey("a", func(r column.Row) error { return nil })
+			c.Query(func(txn *column.Txn) error {
+				txn.DeleteKey("a") // resolves "a" to offset 0 now, applies at commit
+				// meanwhile (another transaction; here from the same goroutine, no lock is held):
+				c.DeleteKey("a")
+				c.InsertKey("b", func(r column.Row) error { return nil }) // re-uses offset 0
+				return nil
+			})
+			errB := c.QueryKey("b", func(r column.Row) error { return nil })
+			if errB != nil {
+				return true, fmt.Sprintf("txn1[deleteKey(a)] overlapping deleteKey(a); insertKey(b): key \"b\", which nobody deleted, is gone (QueryKey(b): %v)", errB)
+			}
+			return false, ""
+		})
+}
